@@ -84,7 +84,9 @@ add("C11", "other",
     "Proved: read_signal's dispatch for an arbitrary force_as string (exactly the documented helper, called with (source, dtype, key, **kwargs), "
     "result returned unchanged; ValueError for a stream without force_as, kaldi/table with a stream, or an undocumented force_as, before any reader "
     "runs), the suffix inference against the documented order (z3 strings), wds_read_signal's totality, and the .npy / .npz / raw / .pt helpers "
-    "(one load of exactly the given source with the caller's keyword arguments, entry `key` or 'arr_0', one cast iff a dtype is given). Container "
+    "(one load of exactly the given source with the caller's keyword arguments, entry `key` or 'arr_0', one cast iff a dtype is given), the wave "
+    "helper (all frames once as little-endian signed integers of the file's width, time x channels, IOError iff uneven, closed on every way out) "
+    "and the soundfile helper (one read in the stored subtype's NumPy type, then the cast), SPHERE header parsing (see C12). Container "
     "round trips (incl. long SPHERE headers) are bounded." + MIX, TB)
 add("C12", "other",
     "Proved: copy_samples' read loop against a ghost byte stream for every channel count, sample count and file length (cursor and decoded-prefix "
